@@ -1,6 +1,96 @@
 /-
-  C17 — Spec: alias substitution "by hand" (placeholder, completed below).
+  C17 — Spec: alias substitution "by hand", the way POSIX XCU 2.3.1 words it and traditional shells
+  implement it — NOT the way yash-rs stores it.
+
+  * The text is plain characters (no per-character origins).
+  * An alias is "being processed" from the moment its value is put in front of the remaining text until that
+    value has been read completely: a stack of regions `(name, endRem)`, `endRem` = number of characters of
+    the remaining text that lie behind the region.  A word is not replaced by an alias that is being
+    processed (innermost or enclosing).
+  * "If the value of the alias replacing the word ends in a blank, the shell shall check the next command
+    word for alias substitution": among the blanks skipped before a word there is the final blank of a value
+    that ends in a blank.
+  * A word is a candidate only where the grammar reads a command name (`trans … = some true`), or the alias
+    is global, or by the blank rule.  Which grammar position the next token is in is the same automaton
+    `trans` as the model uses (it transcribes the parser, not the alias mechanism).
+  * The parser then reads the TOKENS that come out (`toks`), i.e. a replaced word is always a token
+    boundary.
+
+  `substLine T line` is the substituted text.  The driver prints `=ok <text>` / `=syntax-error` from it; the
+  implementation must agree (checked on every run).
 -/
 import YashModel.Alias.Model
 namespace YashModel.Alias
+
+structure Region where
+  name : String
+  endRem : Nat
+  eb : Bool
+  deriving Repr
+
+structure HState where
+  out : List Char := []        -- text already read, most recent first
+  rest : List Char
+  active : List Region := []   -- aliases being processed, innermost first
+  st : PState := .cmd0 .free
+  toks : List Kind := []
+  deriving Repr
+
+/-- regions that contain the character which has `rem` characters (itself included) up to the end -/
+def activeAt (rs : List Region) (rem : Nat) : List Region := rs.filter (fun r => r.endRem < rem)
+
+/-- Is one of the first `k` characters (the skipped blanks) the final blank of a blank-ending value? -/
+def blankRule (rs : List Region) : Nat → List Char → Bool
+  | 0, _ => false
+  | _, [] => false
+  | k + 1, c :: t =>
+    (isBlank c &&
+      (match activeAt rs (t.length + 1) with
+       | r :: _ => r.eb && r.endRem == t.length
+       | [] => false))
+    || blankRule rs k t
+
+def hstep (T : Table) (s : HState) : Option HState :=
+  let k := skipLen (plain s.rest)
+  let skipped := s.rest.take k
+  match s.rest.drop k with
+  | [] => none
+  | r@(_ :: _) =>
+    let tok := lexTok (plain r)
+    let n := max tok.len 1
+    let after := r.drop n
+    let d := trans s.st tok.kind
+    let here := activeAt s.active r.length
+    let cand : Option Alias :=
+      match d.sub, tok.kind with
+      | some cmd, .word (some name) _ =>
+        if here.any (fun x => x.name == name) then none else
+        match T.lookup name with
+        | some a => if cmd || a.global || blankRule s.active k s.rest then some a else none
+        | none => none
+      | _, _ => none
+    match cand with
+    | some a =>
+      let enclosing := here.map fun x => { x with endRem := min x.endRem after.length }
+      some { out := skipped.reverse ++ s.out, rest := a.value ++ after,
+             active := { name := a.name, endRem := after.length, eb := endsBlank a.value } :: enclosing,
+             st := d.onSub, toks := s.toks }
+    | none =>
+      some { out := (r.take n).reverse ++ skipped.reverse ++ s.out, rest := after,
+             active := activeAt s.active after.length, st := d.onTake, toks := tok.kind :: s.toks }
+
+def hrun (T : Table) : Nat → HState → HState
+  | 0, s => s
+  | f + 1, s =>
+    match hstep T s with
+    | none => s
+    | some s' => hrun T f s'
+
+def substHand (T : Table) (line : List Char) : HState := hrun T (fuelFor T line) { rest := line }
+
+/-- Textual substitution by hand. -/
+def substLine (T : Table) (line : List Char) : List Char :=
+  let s := substHand T line
+  s.out.reverse ++ s.rest
+
 end YashModel.Alias
